@@ -14,7 +14,12 @@ use driver::{Budget, Check, Tier};
 use serde_json::{json, Value};
 use std::time::{Duration, Instant};
 
-const VERIF_DIR: &str = "/verif";
+const VERIF_DIR_DEFAULT: &str = "/verif";
+
+/// where evidence, replays and the known-findings file live (a background run from a snapshot points this at the snapshot)
+fn verif_dir() -> String {
+    std::env::var("VERIF_OUT").unwrap_or_else(|_| VERIF_DIR_DEFAULT.to_string())
+}
 
 fn arg_val(args: &[String], name: &str) -> Option<String> {
     args.iter().position(|a| a == name).and_then(|i| args.get(i + 1).cloned())
@@ -30,7 +35,7 @@ fn real_stub_table() -> Value {
 }
 
 fn write_evidence(check: &dyn Check, tier: Tier, seed: u64, sum: &driver::Summary, wall: f64, n_viol: usize, known: &[String]) {
-    let dir = format!("{}/evidence", VERIF_DIR);
+    let dir = format!("{}/evidence", verif_dir());
     let _ = std::fs::create_dir_all(&dir);
     let runs_per_hour = if wall > 0.0 { (sum.runs as f64 / wall * 3600.0) as u64 } else { 0 };
     let mut faults = serde_json::Map::new();
@@ -106,7 +111,7 @@ fn cmd_check(args: &[String]) -> i32 {
     println!("VERIF_SEED={} check={} tier={:?} runs<={} wall<={}s jobs={}", seed, id, tier, runs, wall, jobs);
     let t0 = Instant::now();
     let sum = driver::explore(check.as_ref(), tier, seed, &budget);
-    let known = driver::load_known(&format!("{}/known_findings.json", VERIF_DIR));
+    let known = driver::load_known(&format!("{}/known_findings.json", verif_dir()));
     let mut reported_known: Vec<String> = vec![];
     let mut new_violations: Vec<(scenario::Case, driver::Violation)> = vec![];
     for (case, viol) in &sum.violations {
@@ -123,13 +128,13 @@ fn cmd_check(args: &[String]) -> i32 {
         println!("{}", l);
     }
     let mut exit = 0;
-    let _ = std::fs::create_dir_all(format!("{}/replays", VERIF_DIR));
+    let _ = std::fs::create_dir_all(format!("{}/replays", verif_dir()));
     for (case, viol) in new_violations.iter().take(if std::env::var_os("SIM_ALL_VIOLATIONS").is_some() { 50 } else { 3 }) {
         let (min_case, steps) = driver::minimise(check.as_ref(), case, &viol.class, Duration::from_secs(60), Duration::from_secs(if tier == Tier::Quick { 60 } else { 240 }));
         // re-evaluate the minimised case in a fresh process for the final detail text
         let r = driver::eval_case(check.as_ref(), &min_case, Duration::from_secs(60));
         let detail = r.violations.iter().find(|v| v.class == viol.class).map(|v| v.detail.clone()).unwrap_or(viol.detail.clone());
-        let path = format!("{}/replays/{}-{}-{}.json", VERIF_DIR, id, case.seed, driver::fnv64(&viol.class) % 100000);
+        let path = format!("{}/replays/{}-{}-{}.json", verif_dir(), id, case.seed, driver::fnv64(&viol.class) % 100000);
         let file = json!({"property": id, "class": viol.class, "detail": detail, "seed": case.seed, "minimisation_steps": steps,
             "schedule_decisions": min_case.recorded.as_ref().map(|r| r.sched.len()), "faults": min_case.recorded.as_ref().map(|r| r.faults.clone()),
             "case": min_case});
